@@ -104,6 +104,22 @@ PROPS = {
                         "yet: scripts with them are not generated and this part of C04 is not decided (see DESIGN.md)"],
         "n": {"quick": 250, "thorough": 4000},
     },
+    "C08": {
+        "theorems": ["C08_body_sound", "C08_indicator_value", "C08_target_bounds", "linear_trapezoid"],
+        "profiles": [("ind", 0.7), ("obj", 0.3)],
+        "relevant": lambda o: owner_in(o, ("indicator:",), {"IndicatorTarget", "IndicatorBounds"}),
+        "spec": "C08",
+        "nontrivial": lambda s: any(d["op"] == "indicator" for d in s),
+        "rule": "scripts of the 'ind' profile: every indicator class over plain / cumulative / selected workers, optional "
+                "tasks, horizons 6..30 and none (incl. horizons that do not divide 100), constant / linear / polynomial "
+                "costs, buffers, user expressions, indicator targets and bounds (incl. 0); non-trivial = at least one "
+                "indicator; distinct = distinct script text",
+        "assumptions": ["indicator formulas emitted by the real code are those of the model (ENC, owners indicator:*) or equivalent (z3)",
+                        "IndicatorResourceIdle and non-constant cost functions: ENC only (no spec twin); polynomial costs are the "
+                        "trapezoid as implemented, not claimed equal to the integral",
+                        "build_solution reports the value of the indicator variable (SOL channel, C11)"],
+        "n": {"quick": 250, "thorough": 4000},
+    },
     "C07": {
         "theorems": ["incLoop_spec", "C07_anytime", "C07_optimal"],
         "profiles": [("obj", 1.0)],
